@@ -88,6 +88,8 @@ type PathSample struct {
 	Inputs    map[string]interface{} `json:"inputs,omitempty"`
 	Trace     []string               `json:"trace,omitempty"`
 	End       string                 `json:"end"`
+	Kinds     map[string]string      `json:"kinds,omitempty"`
+	Modelled  bool                   `json:"inputs_from_solver_model,omitempty"`
 }
 
 // Load builds SSA for /repo (current working tree) with the harness files overlaid as
@@ -421,7 +423,22 @@ func Explore(in *Interp, cfg *Config, nWorkers int, solverBin string, timeoutMs 
 							res.Samples = append(res.Samples, PathSample{Decisions: decString(ex.snapshot()), Inputs: w.inputValues(nil), Trace: w.trace, End: endString(w)})
 						}
 					} else if len(res.Samples) < 6 && w.end != EndAssumeFalse && (len(res.Samples) < 3 || len(w.violations) > 0) {
-						res.Samples = append(res.Samples, PathSample{Decisions: decString(ex.snapshot()), Inputs: w.inputValues(nil), Trace: tail(w.trace, traceTail()), End: endString(w)})
+						// inputs of a sample come from a solver model of the completed path's condition
+						ps := PathSample{Decisions: decString(ex.snapshot()), Trace: tail(w.trace, traceTail()), End: endString(w), Kinds: map[string]string{}}
+						var model map[string]uint64
+						if w.end == EndOK && len(w.violations) == 0 {
+							mu.Unlock()
+							if r, m := wk.sol.Check(w.pc, nil, true); r == Sat {
+								model = m
+								ps.Modelled = true
+							}
+							mu.Lock()
+						}
+						ps.Inputs = w.inputValues(model)
+						for k, x := range w.inputKind {
+							ps.Kinds[k] = x
+						}
+						res.Samples = append(res.Samples, ps)
 					}
 					tooMany := maxViol > 0 && len(res.ViolCount) >= maxViol
 					timedOut := time.Now().After(deadline)
